@@ -867,8 +867,8 @@ func (s *sim) adversary(alphabet []int64) {
 		if verifrt.Intn("a", 8) == 7 {
 			v1 = 0 // the empty value
 		}
-		mv := verifrt.Intn("a", 16)
-		if mv >= 13 {
+		mv := verifrt.Intn("a", 17)
+		if mv >= 14 {
 			mv = 11 // the stale-certificate move is cheap when its precondition fails: try it often
 		}
 		switch mv {
@@ -1000,6 +1000,39 @@ func (s *sim) adversary(alphabet []int64) {
 				}
 			}
 			verifrt.Probe("adv:push-rounds")
+		case 13: // certificate by repetition: a Byzantine leader justifies a value of its choice with its
+			// own single PREPARE repeated quorum times (plus its ROUND-CHANGE claiming that certificate)
+			for r := int64(2); r <= maxR+1; r++ {
+				if !s.byz[s.leader(r)] {
+					continue
+				}
+				ld := s.leader(r)
+				pr := 1 + int64(verifrt.Intn("a", int(r-1)))
+				var j []M
+				j = append(j, s.forged(qbft.MsgRoundChange, ld, r, 0, pr, v1, nil))
+				seen := map[int64]bool{ld: true}
+				for _, m := range s.observed(func(m msg) bool { return m.typ == qbft.MsgRoundChange && m.round == r && m.pr <= pr }) {
+					if !seen[m.src] {
+						seen[m.src] = true
+						j = append(j, m)
+					}
+				}
+				for _, bb := range byz {
+					if !seen[bb] {
+						seen[bb] = true
+						j = append(j, s.forged(qbft.MsgRoundChange, bb, r, 0, 0, 0, nil))
+					}
+				}
+				rep := s.forged(qbft.MsgPrepare, ld, pr, v1, 0, 0, nil)
+				for k := 0; k < s.q; k++ {
+					j = append(j, rep)
+				}
+				pp := s.forged(qbft.MsgPrePrepare, ld, r, v1, 0, 0, j)
+				for _, to := range honest {
+					s.advSend(to, pp)
+				}
+				verifrt.Probe("adv:certificate-by-repetition")
+			}
 		case 12: // double proposal for a round the members have not reached yet, then a one-sided commit:
 			// every member that jumps to the round on the first proposal must not vote again on the second
 			for r := maxR; r <= maxR+2; r++ {
